@@ -61,6 +61,6 @@ FAMILIES = {
 }
 
 BUDGET = {
-    "quick": {"single": 6000, "flex": 400, "multi": 400, "election": 300, "lock": 2000},
-    "thorough": {"single": 400000, "flex": 40000, "multi": 40000, "election": 20000, "lock": 200000},
+    "quick": {"single": 6000, "flex": 400, "multi": 400, "election": 600, "lock": 2000},
+    "thorough": {"single": 400000, "flex": 40000, "multi": 40000, "election": 30000, "lock": 200000},
 }
